@@ -281,6 +281,7 @@ def decide(prop, tier, seed, replay=None):
     violations = []      # (sid, vio)
     knowns = Counter()
     diverged = []        # (sid, div)
+    diverged_other = []  # (sid, div): divergences on facets this property's theorems do not read
     unrelated = Counter()
     ok_traces = 0
     nontrivial = set()
@@ -299,6 +300,8 @@ def decide(prop, tier, seed, replay=None):
                 unrelated[(x.get('why') or x.get('what'))[:60]] += 1
         if rel:
             diverged.append((sid, rel[0]))
+        elif divs:
+            diverged_other.append((sid, divs[0]))
         elif not divs:
             ok_traces += 1
         for v in d['vio']:
@@ -377,6 +380,23 @@ def decide(prop, tier, seed, replay=None):
                        'how_to_replay': f'./check {prop} --replay {replay_path}'}, open(os.path.join(ROOT, replay_path), 'w'), indent=1)
             out_lines.append(f'VIOLATION property={prop} replay={replay_path} no-failing-input-found')
         exit_code = 1
+    elif diverged_other:
+        # the correspondence broke on facets this property's theorems do not read: they stay tied to the code, but the real
+        # histories that left the model are still followed to their end (degraded mode) - if this property fails on one of them,
+        # that history is a concrete failing input; if none does, nothing is reported for this property
+        for sid_, dv_ in diverged_other:
+            cand = [v for v in per[sid_]['vio_after'] if v['prop'] == prop and not (set(v['sigs']) & known_sigs)]
+            if cand:
+                sc_ = by_sid[sid_]['sc']
+                replay_path = os.path.join('replays', f"{prop}-{hashlib.sha256(json.dumps(sc_, sort_keys=True).encode()).hexdigest()[:12]}.json")
+                json.dump({'property': prop, 'kind': 'violation-after-divergence', 'scenario': sc_, 'cfg': by_sid[sid_]['cfg'],
+                           'clause': cand[0]['clause'], 'detail': cand[0]['detail'], 'found_in': sid_,
+                           'note': 'the correspondence broke on a facet outside this property; the monitor was evaluated on the real history after the model had been resynchronised to the observed state',
+                           'broken_correspondence': dv_, 'how_to_replay': f'./check {prop} --replay {replay_path}'},
+                          open(os.path.join(ROOT, replay_path), 'w'), indent=1)
+                out_lines.append(f'VIOLATION property={prop} replay={replay_path}')
+                exit_code = 1
+                break
     findings_text = {f['id']: f['what'] for f in known['findings'] if f['property'] == prop}
     for s, n in sorted(knowns.items()):
         out_lines.append(f'KNOWN-FINDING: property={prop} {s} {findings_text.get(s, "")} (seen in {n} checks of this run)')
